@@ -1,4 +1,5 @@
 import EdVerif.Proofs.PointLayerDecode
+import EdVerif.Proofs.Closing
 /-!
 C05 — point encoding is canonical, representation-independent and round-trips.
 
@@ -11,8 +12,8 @@ encoding of the decoded point.
 namespace EdVerif.Props
 open EdVerif.Impl EdVerif.Prims EdVerif.Proofs EdVerif.Spec
 
-theorem C05_bytes (ff : FieldFacts) {P : P3} (hP : P.Valid) :
-    Point.bytes P = Spec.encode P.toEd := Proofs.C05_bytes ff hP
+theorem C05_bytes {P : P3} (hP : P.Valid) :
+    Point.bytes P = Spec.encode P.toEd := Proofs.C05_bytes fieldFacts hP
 
 /-- `Spec.encode` written as "canonical `y`, sign of `x` OR-ed into bit 7 of byte 31" -/
 theorem C05_encode_eq (q : Ed25519) :
@@ -20,21 +21,21 @@ theorem C05_encode_eq (q : Ed25519) :
       (LEbytes q.y.val 32).set! 31 ((LEbytes q.y.val 32)[31]! ||| (128 * (q.x.val % 2))) :=
   Proofs.encode_eq_setBit q
 
-theorem C05_rep_indep (ff : FieldFacts) {P Q : P3} (hP : P.Valid) (hQ : Q.Valid)
-    (h : P.toEd = Q.toEd) : Point.bytes P = Point.bytes Q := Proofs.C05_rep_indep ff hP hQ h
+theorem C05_rep_indep {P Q : P3} (hP : P.Valid) (hQ : Q.Valid)
+    (h : P.toEd = Q.toEd) : Point.bytes P = Point.bytes Q := Proofs.C05_rep_indep fieldFacts hP hQ h
 
 theorem C05_encode_injective : Function.Injective Spec.encode := Spec.encode_injective
 
-theorem C05_bytes_eq_iff (ff : FieldFacts) {P Q : P3} (hP : P.Valid) (hQ : Q.Valid) :
-    Point.bytes P = Point.bytes Q ↔ P.toEd = Q.toEd := Proofs.C05_bytes_eq_iff ff hP hQ
+theorem C05_bytes_eq_iff {P Q : P3} (hP : P.Valid) (hQ : Q.Valid) :
+    Point.bytes P = Point.bytes Q ↔ P.toEd = Q.toEd := Proofs.C05_bytes_eq_iff fieldFacts hP hQ
 
-theorem C05_roundtrip (ff : FieldFacts) (sf : SqrtRatioDecodeFacts) {P : P3} (hP : P.Valid) :
+theorem C05_roundtrip {P : P3} (hP : P.Valid) :
     ∃ P', Point.setBytes (Point.bytes P) = some P' ∧ P'.Valid ∧ P'.toEd = P.toEd :=
-  Proofs.C05_roundtrip ff sf hP
+  Proofs.C05_roundtrip fieldFacts sqrtFacts hP
 
-theorem C05_canonical (ff : FieldFacts) (sf : SqrtRatioDecodeFacts) {x : Bytes} (hb : IsBytes x)
+theorem C05_canonical {x : Bytes} (hb : IsBytes x)
     {P : P3} (h : Point.setBytes x = some P) : Point.bytes P = Spec.encode P.toEd :=
-  Proofs.C05_canonical ff sf hb h
+  Proofs.C05_canonical fieldFacts sqrtFacts hb h
 
 /-- known answers for the specification of the encoding (sanity of `Spec.encode`) -/
 example : Spec.encode 0 = Point.identityBytes := Proofs.encode_zero
